@@ -587,5 +587,107 @@ theorem smem_sinter (a b : List Val) (x : Val) :
             rw [h'] at this; cases this
         simp [this]
 
+/-! ### sorted(x, f): the sort driven by a call-numbered comparison oracle -/
+
+theorem insBy_perm (f : Nat → Val → Val → Option Bool) (x : Val) (n : Nat) (rp : List Val) :
+    (Impl.insBy f x n rp).1.Perm (x :: rp) := by
+  induction rp generalizing n with
+  | nil => simp [Impl.insBy]
+  | cons y ys ih =>
+    unfold Impl.insBy
+    cases f n x y with
+    | none => exact List.Perm.refl _
+    | some b =>
+      cases b with
+      | true => exact (List.Perm.cons y (ih (n + 1))).trans (List.Perm.swap x y ys)
+      | false => exact List.Perm.refl _
+
+theorem sortByLoop_perm (f : Nat → Val → Val → Option Bool) (rp rest : List Val) (n : Nat) (e : Bool) :
+    (Impl.sortByLoop f rp rest n e).1.Perm (rp.reverse ++ rest) := by
+  induction rest generalizing rp n e with
+  | nil => simp [Impl.sortByLoop]
+  | cons x rest ih =>
+    have hp := insBy_perm f x n rp
+    unfold Impl.sortByLoop
+    refine (ih _ _ _).trans ?_
+    have h1 : (Impl.insBy f x n rp).1.reverse.Perm (x :: rp.reverse) :=
+      (List.reverse_perm _).trans (hp.trans (List.Perm.cons x (List.reverse_perm rp).symm))
+    exact (List.Perm.append_right rest h1).trans
+      (by simpa using (List.perm_middle (a := x) (l₁ := rp.reverse) (l₂ := rest)).symm)
+
+theorem sortBy_perm (f : Nat → Val → Val → Option Bool) (xs : List Val) : (Impl.sortBy f xs).1.Perm xs := by
+  simpa [Impl.sortBy] using sortByLoop_perm f [] xs 0 false
+
+/-- the `Cmp`-valued comparator of an abstract "less" relation -/
+def relCmp (lt : Val → Val → Bool) : Val → Val → Cmp := fun a b => if lt a b then .lt else .ge
+
+theorem insBy_of_rel (lt : Val → Val → Bool) (f : Nat → Val → Val → Option Bool)
+    (hf : ∀ n a b, f n a b = some (lt a b)) (x : Val) (n : Nat) (rp : List Val) :
+    (Impl.insBy f x n rp).1 = (Impl.ins (relCmp lt) x rp).1 ∧ (Impl.insBy f x n rp).2.2 = false ∧
+    (Impl.ins (relCmp lt) x rp).2 = .ge := by
+  induction rp generalizing n with
+  | nil => simp [Impl.insBy, Impl.ins]
+  | cons y ys ih =>
+    unfold Impl.insBy Impl.ins
+    rw [hf]
+    have := ih (n + 1)
+    cases hl : lt x y with
+    | true => simp [relCmp, hl, this]
+    | false => simp [relCmp, hl]
+
+theorem sortByLoop_of_rel (lt : Val → Val → Bool) (f : Nat → Val → Val → Option Bool)
+    (hf : ∀ n a b, f n a b = some (lt a b)) (rp rest : List Val) (n : Nat) :
+    Impl.sortByLoop f rp rest n false = ((Impl.sortLoop (relCmp lt) rp rest .ge).1, false) := by
+  induction rest generalizing rp n with
+  | nil => simp [Impl.sortByLoop, Impl.sortLoop]
+  | cons x rest ih =>
+    have h3 := insBy_of_rel lt f hf x n rp
+    unfold Impl.sortByLoop Impl.sortLoop
+    cases hc : Impl.ins (relCmp lt) x rp with
+    | mk rp' c =>
+      rw [hc] at h3
+      simp only at h3
+      obtain ⟨h1, h2, rfl⟩ := h3
+      simp only [h1, h2, Bool.or_false]
+      exact ih rp' _
+
+/-- **an abstract relation as comparison function**: when every call answers `lt a b` (no
+    call raises, the call number is irrelevant) the oracle-driven sort is the sort by the
+    comparator of `lt`, and reports no error -/
+theorem sortBy_of_rel (lt : Val → Val → Bool) (f : Nat → Val → Val → Option Bool)
+    (hf : ∀ n a b, f n a b = some (lt a b)) (xs : List Val) :
+    Impl.sortBy f xs = ((Impl.sort (relCmp lt) xs).1, false) := by
+  unfold Impl.sortBy Impl.sort
+  exact sortByLoop_of_rel lt f hf [] xs 0
+
+theorem insBy_no_raise (f : Nat → Val → Val → Option Bool) (hf : ∀ n a b, (f n a b).isSome = true)
+    (x : Val) (n : Nat) (rp : List Val) : (Impl.insBy f x n rp).2.2 = false := by
+  induction rp generalizing n with
+  | nil => simp [Impl.insBy]
+  | cons y ys ih =>
+    unfold Impl.insBy
+    have := hf n x y
+    cases hv : f n x y with
+    | none => simp [hv] at this
+    | some b => cases b <;> simp [ih]
+
+theorem sortByLoop_no_raise (f : Nat → Val → Val → Option Bool) (hf : ∀ n a b, (f n a b).isSome = true)
+    (rp rest : List Val) (n : Nat) : (Impl.sortByLoop f rp rest n false).2 = false := by
+  induction rest generalizing rp n with
+  | nil => simp [Impl.sortByLoop]
+  | cons x rest ih =>
+    unfold Impl.sortByLoop
+    simp only [insBy_no_raise f hf, Bool.or_false]
+    exact ih _ _
+
+theorem sortByLoop_raised (f : Nat → Val → Val → Option Bool) (rp rest : List Val) (n : Nat) :
+    (Impl.sortByLoop f rp rest n true).2 = true := by
+  induction rest generalizing rp n with
+  | nil => simp [Impl.sortByLoop]
+  | cons x rest ih =>
+    unfold Impl.sortByLoop
+    simp only [Bool.true_or]
+    exact ih _ _
+
 end Impl
 end Risor.C16
